@@ -7,7 +7,7 @@ package pstore
 // the submitted one, and creating an id twice fails without altering the first. Delete removes the plan and every object
 // belonging to it and nothing belonging to any other plan."
 //
-// Four fault families, one per case mode:
+// Five fault families, one per case mode:
 //   poison     — a valid plan whose actions all use the poison plugins; the request that cannot be serialised (channel or
 //                func behind an `any` field, NaN, failing MarshalJSON, a string with bytes that are not valid UTF-8) is
 //                placed at EVERY action position of the tree in
@@ -18,6 +18,8 @@ package pstore
 //                unchanged, row counts unchanged.
 //   interleave — creates and deletes of 2-5 plans interleaved: after a Delete the victim has no rows and is unreadable,
 //                every other plan reads equal to the model, the total row counts equal the model's.
+//   batch      — cosmosdb over its fake: Create of a plan of 20-400 objects while the n-th transactional batch addressed
+//                to the plan's partition is refused with a permanent error (see c14_batch_test.go).
 //   kill       — the test binary re-executes itself; the child submits a plan of 100-400 objects on a file-backed
 //                sqlite vault while a watcher SIGKILLs the process once the k-th INSERT has been captured; the parent
 //                re-opens the directory: either the complete plan is readable or no row exists in any table.
@@ -80,7 +82,7 @@ type BatchParams struct {
 
 // AtomCase is a C14 case.
 type AtomCase struct {
-	// Mode: "poison", "dup", "interleave", "kill", "batch" (the last only when the cosmos fault hook is compiled in).
+	// Mode: "poison", "dup", "interleave", "kill", "batch".
 	Mode string
 	Arm  string
 	Seed uint64
@@ -118,7 +120,7 @@ func genAtomCase(t *rapid.T) AtomCase {
 			mode = "poison"
 		case u < 76*killOneIn:
 			mode = "dup"
-		case u >= 96*killOneIn && batchFaultAvailable:
+		case u >= 96*killOneIn:
 			mode = "batch"
 		default:
 			mode = "interleave"
